@@ -12,6 +12,6 @@ CONFIG = {
                     "the harness records the real functions' results for each case",
                     "bufio.Scanner first-token behaviour is modelled (Model/Scanner.lean) and validated differentially by this run"],
     "timeout": {"quick": 900, "thorough": 3000},
-    "level_text": "Lean theorems over an executable model of Client.Start's handshake parsing (Model/Handshake.lean): start succeeds iff the line is well-formed for this client and reports exactly the line's values (start_ok_iff_wellformed), never panics / never returns nil error with nil address (start_never_panics), every error has killed the process, silence/exit/closed stdout are errors \u2014 for ALL byte lines x client configs x resolver/translator/cert-parser behaviours; structural facts (address error checked, nil TLSConfig guarded, field counts) re-extracted from the source on every run and re-proved (Instance/C01.lean); model tied to the real Start by ~40k differential cases per run through a scripted runner. Also proved: the address (the client's \"started\" flag) is recorded exactly when Start succeeded, so a failed Start stays failed for every later Start/Client/Protocol (address_recorded_iff_ok, failed_start_stays_failed; fact: c.address is assigned as Start's last statement; witness for the early assignment); every failing case is followed by a second Start, and long first lines place a reader's buffer boundary inside every field.",
+    "level_text": "Lean theorems over an executable model of Client.Start's handshake parsing (Model/Handshake.lean): start succeeds iff the line is well-formed for this client and reports exactly the line's values (start_ok_iff_wellformed), never panics / never returns nil error with nil address (start_never_panics), every error has killed the process, silence/exit/closed stdout are errors \u2014 for ALL byte lines x client configs x resolver/translator/cert-parser behaviours; structural facts (address error checked, nil TLSConfig guarded, field counts) re-extracted from the source on every run and re-proved (Instance/C01.lean); model tied to the real Start by ~40k differential cases per run through a scripted runner. Also proved: the address (the client's \"started\" flag) is recorded exactly when Start succeeded, so a failed Start stays failed for every later Start/Client/Protocol (address_recorded_iff_ok, failed_start_stays_failed; fact: c.address is assigned as Start's last statement; witness for the early assignment); every failing case is followed by a second Start, and long first lines place a reader's buffer boundary inside every field. Ninth round: a command launch records the address exactly as it stands on the line (Hygiene.translatorIdentity; address_recorded_verbatim, cleaned_path_witness).",
     "level_note": "Full strength on the model. Trusted: Lean kernel; extractor; harness+oracle; net resolvers, x509/base64 and the runner's address translation enter as arbitrary functions whose real results are recorded per case; bufio.Scanner first-token model (validated differentially).",
 }
